@@ -90,26 +90,28 @@ CLAIMS = {
             'the real decoder returns Err whenever the spec does (reject clauses on decompress / parse_lzma / parse_uncompressed).',
             'Verus refinement proofs on mechanically extracted real code', '5 C17'),
     'C05': (True,
-            'Unbounded deductive proof (Verus) over ALL chunkings via a per-call invariant: Stream::inv(fed, sink0) relates the concrete stream '
-            'state to the one-shot spec decoder after the accepted bytes `fed` (out_eq: under every continuation both decode to the same verdict '
-            'and output). new_with_options establishes it for the empty history, write(data)=Ok(n) takes inv(fed) to inv(fed + data[..n]) for '
-            'every fed (so for every sequence of calls, by induction at the client), flush preserves it, and finish answers with '
-            'sp_lzma_oneshot(fed): spec None => Err; Ok(w) => w.written() == spec output; zero input => Ok(empty). The one-shot entry point '
-            'lzma_decompress_with_options is verified against the same spec function. Underneath: DecoderState::process_mode verified in Partial '
-            'mode (dry run changes nothing; carried-over bytes are conserved; every real step on a look-ahead buffer is the step of the one-shot '
-            'decoder by input-locality lemmas lemma_repl_*; after the end marker nothing decodes), header staging verified incl. the leftover move. '
-            'PROVED DIRECTION: stream accepts => one-shot accepts with identical output, and one-shot rejects => stream rejects; plus header phase '
-            'never refuses an acceptable incomplete header; the look-ahead decisions are proved against the spec (the dry run answers Ok iff '
-            'the spec can decode a symbol from the bytes offered; the decoder waits only if it cannot; a real step on fewer than 20 bytes '
-            'happens only after a successful dry run; MAX_REQUIRED_INPUT >= 20). NOT PROVED: that a data-phase write / finish never fails '
-            'when the one-shot decoder succeeds (needs the 20-byte bound on a symbol, assumed as A-20B, and dry-run == real-run agreement).',
-            'Verus per-call invariant (ghost history universally quantified) + spec-level lemmas', '5 C05'),
+            'Unbounded deductive proof (Verus) over ALL chunkings, BOTH directions, via a per-call invariant with a universally quantified ghost history: '
+            'Stream::inv(fed, sink0) relates the concrete stream state to the one-shot spec decoder after the accepted bytes `fed` (out_eq: under every '
+            'continuation both decode to the same verdict and output). new_with_options establishes it for the empty history; write(data)=Ok(n) takes '
+            'inv(fed) to inv(fed + data[..n]) for every fed (so for every sequence of calls, by induction at the client); flush preserves it; finish '
+            'answers with sp_lzma_oneshot(fed): spec None => Err, Ok(w) => w.written() == spec output, spec Some => Ok, zero input => Ok(empty). '
+            'A write FAILS only if the one-shot spec rejects every file that starts with the accepted bytes followed by `data` (ST.write.complete), so '
+            'a stream error is never spurious. The two completeness clauses assume the environment cannot interfere: sink never fails, memory limit '
+            '>= dictionary size. The one-shot entry point lzma_decompress_with_options is verified against the same spec function. Underneath: '
+            'DecoderState::process_mode verified in Partial and Finish mode (dry run changes nothing; carried-over bytes are conserved; every real step on '
+            'a look-ahead buffer is the step of the one-shot decoder by the input-locality lemmas lemma_repl_*; after the end marker nothing decodes), '
+            'header staging incl. the leftover move, and three spec-level theorems proved by induction over the format spec: one symbol needs at most 20 '
+            'input bytes (lemma_symbol_needs_at_most_20_bytes, potential argument on Range, margin about one bit), the dry run reads the same bits as the '
+            'real run (lemma_dry_step), and a guarded step that fails fails on every longer input (lemma_step_none_stable).',
+            'Verus per-call invariant (ghost history universally quantified) + spec-level induction lemmas', '5 C05'),
     'C15': (True,
             'Unbounded deductive proof (Verus): Stream::lemma_prefix_of_every_completion: under the verified invariant, what the sink has received and '
             'everything decoded so far is a prefix of the output of EVERY completion of the accepted bytes that the one-shot spec accepts; '
             'write never shrinks or rewrites the sink (ST.write.mono); finish with allow_incomplete returns exactly the bytes decoded so far and '
             'succeeds whenever the sink does (state is Data as soon as header + 5 bytes were accepted); a fragmented header is staged, not refused '
-            '(ST.hdr.retry, RH.errkind). NOT PROVED: the bounded lag (output keeps up with input minus 64 bytes), which needs the 20-byte symbol bound.',
+            '(ST.hdr.retry, RH.errkind). Bounded lag: after every write at most 20 accepted bytes are held undecoded (ST.write.lag), the decoder waits for more input '
+            'only if the spec decoder cannot decode a symbol from the bytes held (PM.wait.justified), and 20 bytes always suffice for a symbol '
+            '(lemma_symbol_needs_at_most_20_bytes) - so the output lags the input by less than one symbol + 20 bytes, inside the 64-byte allowance.',
             'Verus per-call invariant + prefix lemma', '5 C15'),
     'C16': (True,
             'Unbounded deductive proof (Verus) on Stream::{write, flush, finish}: after any Err the state is None (the sink is gone), every later '
